@@ -42,6 +42,12 @@ def _pure_str_expr(n):
         return _pure_str_expr(n.value)
     if isinstance(n, ast.Call) and not n.args and not n.keywords and isinstance(n.func, ast.Attribute) and n.func.attr in ('lower', 'upper'):
         return _pure_str_expr(n.func.value)
+    if isinstance(n, ast.Constant):
+        return isinstance(n.value, (str, int)) and not isinstance(n.value, bool)
+    if isinstance(n, ast.IfExp):
+        return _pure_str_expr(n.test) and _pure_str_expr(n.body) and _pure_str_expr(n.orelse)
+    if isinstance(n, ast.Call) and isinstance(n.func, ast.Name) and n.func.id in ('int', 'str') and len(n.args) == 1 and not n.keywords:
+        return _pure_str_expr(n.args[0])
     return False
 
 
@@ -53,14 +59,29 @@ def ev_JoinedStr(self, n):
             continue
         if not isinstance(v, ast.FormattedValue) or v.format_spec is not None or v.conversion != -1 or not _pure_str_expr(v.value):
             return OpaqueStr()
-        try:
-            x = self.eval(v.value)
-        except (E.Unsupported, E.PyExc):
-            return OpaqueStr()
+        x = _eval_pure(self, v.value)
         if type(x) is not str and type(x) is not int:
             return OpaqueStr()
         parts.append(format(x))
     return ''.join(parts)
+
+
+def _eval_pure(path, n):
+    """value of a pure expression if evaluating it cannot fork the path (every decision concrete), else None"""
+    try:
+        if isinstance(n, ast.IfExp):
+            t = _eval_pure(path, n.test)
+            if not isinstance(t, (bool, int, str)) or t is None:
+                return None
+            return _eval_pure(path, n.body if t else n.orelse)
+        if isinstance(n, ast.Call) and isinstance(n.func, ast.Name) and n.func.id in ('int', 'str'):
+            a = _eval_pure(path, n.args[0])
+            if isinstance(a, (bool, int, str)):
+                return int(a) if n.func.id == 'int' else str(a)
+            return None
+        return path.eval(n)
+    except (E.Unsupported, E.PyExc, ValueError):
+        return None
 
 
 E.Path.ev_JoinedStr = ev_JoinedStr
@@ -116,10 +137,7 @@ def _ev_JoinedStr2(self, n):
                 lit.append(v.value)
                 continue
             if isinstance(v, ast.FormattedValue) and v.format_spec is None and v.conversion == -1 and _pure_str_expr(v.value):
-                try:
-                    x = self.eval(v.value)
-                except (E.Unsupported, E.PyExc):
-                    break
+                x = _eval_pure(self, v.value)
                 if type(x) is str or type(x) is int:
                     lit.append(format(x))
                     continue
